@@ -64,7 +64,15 @@ def run(tier, seed, res, lean):
         'programs': stats['cases'], 'disagreements_checked': len(bad),
         'samples': [outs[0][3]], 'distribution': {k: stats[k] for k in ('kinds', 'errors', 'sizes')},
         'model_vm_vs_denotation_mismatches': stats['den_mismatch'],
+        'theorem_instances': {
+            'what': 'call/hash steps on which the driver evaluated the hypotheses of CM.C01.compiled_value/compiled_hash '
+                    '(Graph.okB, Graph.callOKB: proved to imply GraphOK, CallOK) to true; on each the machine result must '
+                    'be the denotation or a scheduled user exception',
+            'hypotheses_hold': stats['thm_instances'], 'hypotheses_fail (cache edges / unbound input)': stats['thm_hyp_false'],
+            'contradicted': stats['thm_contradicted']},
     })
+    if stats['thm_contradicted']:
+        raise RuntimeError('the compiled driver contradicts the proved theorem CM.C01.compiled_value: model and proof out of sync')
 
 
 def shrink(b):
